@@ -11,6 +11,9 @@ PROPS = {
     "C04": "c04_not",
     "C05": "c05_captures",
     "C07": "c07_alignment",
+    "C08": "c08_lines",
+    "C09": "c09_operands",
+    "C10": "c10_stream",
     "C11": "c11_scan",
     "C12": "c12_modes",
 }
